@@ -1677,5 +1677,8 @@ Definition run (o : obs) : obs :=
   | L [L [I kind; I rel; L origin; I _]; L probes; L hist; hk] => run_hooked kind rel origin probes hist hk
   | L [L [I kind; I rel; L origin]; L probes; L hist] => run_case kind rel origin probes hist true
   | L [L [I kind; I rel; L origin; I idobs]; L probes; L hist] => run_case kind rel origin probes hist (idobs =? 1)
+  (* a 5th cfg element: the branching parameter t of the B-tree holding the node map (harness only: the
+     balancing of the map is invisible at the level of content and identity of nodes) *)
+  | L [L [I kind; I rel; L origin; I idobs; I _]; L probes; L hist] => run_case kind rel origin probes hist (idobs =? 1)
   | _ => E eBadCase
   end.
